@@ -16,7 +16,7 @@
 //   byte offset 19 falls inside a character; see examples_rejected). It is discharged here from `s.is_ascii()`
 //   by lemma_ascii_layout, which uses only PROVED vstd lemmas (encode_utf8_valid_utf8, is_ascii_chars_encode_utf8,
 //   is_char_boundary_iff_not_is_continuation_byte, is_char_boundary_start_end_of_seq, encode_utf8_decode_utf8).
-//   Removing `s.is_ascii() &&` from /repo makes from_str FAIL on exactly these six preconditions (mutants.txt).
+//   Removing `s.is_ascii() &&` from /repo makes from_str FAIL on all six of these preconditions (mutants.txt).
 // Assumed std contracts (shims/str_parse_c29.rs):
 //   (I1) the VALUE of `s[a..b]` is what vstd specifies for `SliceIndex::<str>::index` (bytes[a..b]);
 //   (P1) `str::parse::<F>` is total (returns a Result, no panic); (P2) for F = u8 / u32 it is a function of the
